@@ -686,6 +686,17 @@ Proof.
       eapply fetch1_honest; eauto.
 Qed.
 
+Lemma fetch_any_honest B c single regs rs parts ok single' rest q :
+  Forall (resp_honest B) rs -> fetch_any c single regs rs = (FParts parts ok, single', rest, q) -> Forall (part_honest B) parts.
+Proof.
+  unfold fetch_any. destruct (c_handler c); [|apply fetch0_honest].
+  intros H. unfold fetchH. destruct (super_region (squash regs)) as [reg|]; [|intros E; inversion E].
+  destruct rs as [|r t]; [intros E; inversion E|]. inversion H as [|? ? Hr Ht]; subst.
+  destruct r; try (intros E; inversion E; fail).
+  destruct (Z.eqb_spec b (rb reg)) as [Hb|Hb]; intros E; inversion E; subst.
+  constructor; [|constructor]. unfold part_honest; simpl. simpl in Hr. exact Hr.
+Qed.
+
 Definition SIs (c : cfg) (B : bytes) (s : st) : Prop := SI c B (s_cache s) (s_fetched s) (s_ever s).
 
 Lemma fetch_range_spec c B o s p ws rs s' p' ws' stt q :
@@ -698,11 +709,11 @@ Proof.
   destruct ws as [|w0 wt].
   { intros E; inversion E; subst. split; auto. split; [apply grows_refl|]. split; [discriminate|].
     intros _ _. split; [apply sound_refl|constructor]. }
-  destruct (fetch0 (s_single s) (map w_chunk (w0 :: wt)) rs) as [[[fr single'] rest] q0] eqn:Ef.
+  destruct (fetch_any c (s_single s) (map w_chunk (w0 :: wt)) rs) as [[[fr single'] rest] q0] eqn:Ef.
   destruct fr as [parts ok| |].
   - destruct (fetch_regions c _ parts ok) as [f stt0] eqn:Er.
     intros E; inversion E; subst.
-    assert (Hparts : Forall (part_honest B) parts) by (eapply fetch0_honest; eauto).
+    assert (Hparts : Forall (part_honest B) parts) by (eapply fetch_any_honest; eauto).
     assert (HSf : SIf c B (mkF (s_cache s) (s_fetched s) (s_ever s) p (w0 :: wt) [])) by (split; [exact HS|exact Hsafe]).
     destruct (fetch_regions_spec c B o parts ok _ f stt Hcs Hparts HSf Er) as (HS1 & G1 & N1 & N1' & X1).
     cbn [f_cache f_fetched f_ever f_p f_ws f_seen] in *.
@@ -901,38 +912,54 @@ Qed.
 (* ------------------------------------------------------------------------------------------ *)
 (* the other ops, histories *)
 
-Lemma cache_at_spec c B s off sz rs s' stt q :
-  cfg_ok c B -> SIs c B s -> Forall (resp_honest B) rs ->
-  cache_at c s off sz rs = (s', stt, q) ->
-  SIs c B s' /\ grows (s_fetched s) (s_fetched s') /\ stt <> SPanic.
+Lemma cache_lookup_wsafe c s off sz ws : cache_lookup c s off sz = Some ws -> Forall wsafe ws.
 Proof.
-  intros [Hsz Hcs] HS Hh. unfold cache_at.
-  destruct (walk_chunks _ _ _) as [chunks|].
-  2:{ intros E; inversion E; subst. split; auto. split; [apply grows_refl|discriminate]. }
-  set (ws := map discard_writer _).
-  destruct (fetch_range c s [] ws rs) as [[[[s1 p2] ws2] stt1] q1] eqn:Ef.
-  assert (Hsafe : Forall wsafe ws).
-  { unfold ws. rewrite Forall_map. rewrite Forall_forall. intros x _. unfold wsafe; simpl. lia. }
-  destruct (fetch_range_spec c B 0%nat s [] ws rs s1 p2 ws2 stt1 q1 Hcs HS Hsafe Hh Ef) as (HS1 & G1 & N1 & _).
-  intros E; inversion E; subst. auto.
+  unfold cache_lookup. destruct (walk_chunks _ _ _) as [chunks|]; [|discriminate].
+  intros E; inversion E; subst. rewrite Forall_map. rewrite Forall_forall. intros x _. unfold wsafe; simpl. lia.
 Qed.
 
-Lemma cache_op_spec c B : cfg_ok c B -> forall ps scripts s s' stt q,
-  SIs c B s -> Forall (resp_honest B) (concat scripts) ->
-  cache_op c s ps scripts = (s', stt, q) ->
+Lemma pend_get_in pend i ws : pend_get pend i = Some ws -> In ws (map snd pend).
+Proof.
+  induction pend as [|[j w] t IH]; simpl; [discriminate|].
+  destruct (Nat.eqb j i); [intros E; inversion E; subst; auto|intros E; right; auto].
+Qed.
+
+Lemma Forall_concat_nth {A} (P : A -> Prop) (l : list (list A)) i : Forall P (concat l) -> Forall P (nth i l []).
+Proof.
+  intros H. destruct (Nat.lt_ge_cases i (length l)) as [Hi|Hi].
+  - rewrite Forall_forall in *. intros x Hx. apply H. apply in_concat. exists (nth i l []). split; auto. apply nth_In; auto.
+  - rewrite nth_overflow by auto. constructor.
+Qed.
+
+(* Cache(): every interleaving of the pieces' sub-steps keeps the shared state's invariant *)
+Lemma cache_sched_spec c B ps scripts : cfg_ok c B -> Forall (resp_honest B) (concat scripts) ->
+  forall sc pend s failed s' stt q,
+  SIs c B s -> Forall (Forall wsafe) (map snd pend) ->
+  cache_sched c s ps pend sc scripts failed = (s', stt, q) ->
   SIs c B s' /\ grows (s_fetched s) (s_fetched s') /\ stt <> SPanic.
 Proof.
-  intros Hc. induction ps as [|[o z] t IH]; intros scripts s s' stt q HS Hh; simpl.
-  - intros E; inversion E; subst. split; auto. split; [apply grows_refl|discriminate].
-  - assert (Hh1 : Forall (resp_honest B) (hd [] scripts) /\ Forall (resp_honest B) (concat (tl scripts))).
-    { destruct scripts as [|h tl0]; simpl in *; [split; constructor|]. apply Forall_app in Hh. exact Hh. }
-    destruct Hh1 as [Hh1 Hh2].
-    destruct (cache_at c s o z (hd [] scripts)) as [[s1 stt1] q1] eqn:E1.
-    destruct (cache_at_spec c B s o z _ s1 stt1 q1 Hc HS Hh1 E1) as (HS1 & G1 & N1).
-    destruct stt1; try (intros E; inversion E; subst; auto; fail).
-    destruct (cache_op c s1 t (tl scripts)) as [[s2 stt2] q2] eqn:E2.
-    destruct (IH (tl scripts) s1 s2 stt2 q2 HS1 Hh2 E2) as (HS2 & G2 & N2).
-    intros E; inversion E; subst. split; auto. split; auto. eapply grows_trans; eauto.
+  intros Hc Hh. induction sc as [|[i ph] t IH]; intros pend s failed s' stt q HS Hp; simpl.
+  - intros E; inversion E; subst. split; auto. split; [apply grows_refl|]. destruct failed; discriminate.
+  - destruct ph.
+    + destruct (pend_get pend i) as [ws|] eqn:Eg; [|apply IH; auto].
+      destruct (fetch_range c s [] ws (nth i scripts [])) as [[[[s1 p2] ws2] stt1] q1] eqn:Ef.
+      assert (Hsafe : Forall wsafe ws).
+      { apply pend_get_in in Eg. rewrite Forall_forall in Hp. apply Hp. exact Eg. }
+      destruct (fetch_range_spec c B 0%nat s [] ws _ s1 p2 ws2 stt1 q1 (proj2 Hc) HS Hsafe (Forall_concat_nth _ _ i Hh) Ef)
+        as (HS1 & G1 & N1 & _).
+      destruct stt1.
+      * destruct (cache_sched c s1 ps pend t scripts failed) as [[s2 stt2] q2] eqn:E2.
+        destruct (IH _ _ _ _ _ _ HS1 Hp E2) as (A & G2 & N2).
+        intros E; inversion E; subst. split; auto. split; auto. eapply grows_trans; eauto.
+      * destruct (cache_sched c s1 ps pend t scripts true) as [[s2 stt2] q2] eqn:E2.
+        destruct (IH _ _ _ _ _ _ HS1 Hp E2) as (A & G2 & N2).
+        intros E; inversion E; subst. split; auto. split; auto. eapply grows_trans; eauto.
+      * congruence.
+      * intros E; inversion E; subst. split; [exact HS1|]. split; [exact G1|discriminate].
+    + destruct (nth_error ps i) as [[o z]|].
+      2:{ intros E; inversion E; subst. split; auto. split; [apply grows_refl|discriminate]. }
+      destruct (cache_lookup c s o z) as [ws|] eqn:El; [|apply IH; auto].
+      apply IH; auto. simpl. constructor; auto. eapply cache_lookup_wsafe; eauto.
 Qed.
 
 Lemma status_result_nopanic stt r : stt <> SPanic -> r <> RPanic -> status_result stt r <> RPanic.
@@ -950,11 +977,11 @@ Lemma step_spec c B s o s' r q :
   SIs c B s' /\ grows (s_fetched s) (s_fetched s') /\ r <> RPanic /\
   (forall off p0 rs d, o = ReadAt off p0 rs -> r = ROk d -> d = expected B off (zlen p0)).
 Proof.
-  intros Hc HS [Hh Hoff]. destruct o as [off p0 rs|off sz scripts|reg|rs|rs]; simpl in *.
+  intros Hc HS [Hh Hoff]. destruct o as [off p0 rs|off sz sc scripts|reg|rs|rs]; simpl in *.
   - intros E. destruct (read_at_spec c B s off p0 rs s' r q Hc Hoff HS Hh E) as (H1 & H2 & H3 & H4).
     split; auto. split; auto. split; auto. intros off' p0' rs' d Heq. inversion Heq; subst. apply H4.
-  - destruct (cache_op c s _ scripts) as [[s1 stt] q1] eqn:E1.
-    destruct (cache_op_spec c B Hc _ _ _ _ _ _ HS Hh E1) as (H1 & H2 & H3).
+  - destruct (cache_sched c s _ [] sc scripts false) as [[s1 stt] q1] eqn:E1.
+    destruct (cache_sched_spec c B _ scripts Hc Hh sc [] s false s1 stt q1 HS (Forall_nil _) E1) as (H1 & H2 & H3).
     intros E; inversion E; subst. split; auto. split; auto.
     split; [apply status_result_nopanic; auto; discriminate|]. intros; discriminate.
   - intros E; inversion E; subst. unfold evict; simpl. split.
@@ -1106,10 +1133,10 @@ Proof.
   - intros E; inversion E; subst. split; [apply HS|]. split; discriminate.
   - inversion Hh as [|? ? Hr Ht]; subst. destruct rd as [single rs| |lk].
     + simpl in Hr.
-      destruct (fetch0 single (map w_chunk (f_ws f)) rs) as [[[fr single'] rest] q0] eqn:Ef.
+      destruct (fetch_any c single (map w_chunk (f_ws f)) rs) as [[[fr single'] rest] q0] eqn:Ef.
       destruct fr as [parts ok| |]; try (intros E; inversion E; subst; split; [apply HS|]; split; discriminate).
       intros Er.
-      assert (Hparts : Forall (part_honest B) parts) by (eapply fetch0_honest; eauto).
+      assert (Hparts : Forall (part_honest B) parts) by (eapply fetch_any_honest; eauto).
       assert (HSf : SIf c B (mkF (f_cache f) (f_fetched f) (f_ever f) (f_p f) (f_ws f) [])) by exact HS.
       destruct (fetch_regions_spec c B o parts ok _ f' stt Hcs Hparts HSf Er) as (HS1 & G1 & N1 & N1' & X1).
       split; [apply HS1|]. split; [exact N1|]. intros Hs.
@@ -1303,3 +1330,17 @@ Proof.
   induction os as [|o t IH]; intros s; simpl; auto.
   unfold step_out. destruct (step c s o) as [[s1 r] q]. simpl. f_equal. apply IH.
 Qed.
+
+(* Cache() with its pieces interleaved in any way, from any state satisfying the invariant *)
+Lemma cache_fanout_spec c B s off sz sc scripts s' r q :
+  cfg_ok c B -> SIs c B s -> Forall (resp_honest B) (concat scripts) ->
+  step c s (CacheOp off sz sc scripts) = (s', r, q) ->
+  SIs c B s' /\ cache_honest B (s_cache s') /\ total_size (s_fetched s) <= total_size (s_fetched s') /\ r <> RPanic.
+Proof.
+  intros Hc HS Hh E.
+  destruct (step_spec c B s (CacheOp off sz sc scripts) s' r q Hc HS (conj Hh I) E) as (H1 & H2 & H3 & _).
+  split; auto. split; [apply H1|]. split; auto. eapply fetched_size_mono; eauto.
+Qed.
+
+Lemma exec_SIs c B os : cfg_ok c B -> Forall (op_ok B) os -> SIs c B (exec c (init c) os).
+Proof. intros Hc Hos. exact (proj1 (exec_inv c B Hc os (init c) (SIs_init c B) Hos)). Qed.
